@@ -46,6 +46,7 @@ type Ctx struct {
 	counts   map[string]int64
 	outcomes map[uint64]struct{}
 	classes  map[string]int64
+	vsigs    map[string]int64
 	samples  []interface{}
 	viol     int
 	notes    []string
@@ -79,6 +80,7 @@ func FromEnv() *Ctx {
 		counts:   map[string]int64{},
 		outcomes: map[uint64]struct{}{},
 		classes:  map[string]int64{},
+		vsigs:    map[string]int64{},
 		next:     -1,
 		maxCases: envInt("VF_MAXCASES", 0),
 	}
@@ -174,7 +176,9 @@ func (c *Ctx) Case(name string, fn func()) bool {
 	c.cur, c.curName = n, name
 	c.emit(map[string]interface{}{"t": "B", "n": n, "name": name})
 	c.out.Flush()
+	Tick()
 	fn()
+	Tick()
 	c.emit(map[string]interface{}{"t": "E", "n": n})
 	c.ran++
 	if c.ran%64 == 0 {
@@ -191,6 +195,10 @@ func (c *Ctx) Skip(k int) { c.n += k }
 // stable signature used for known-finding matching; detail is free text.
 func (c *Ctx) Violation(sig, detail string) {
 	c.viol++
+	c.vsigs[sig]++
+	if c.vsigs[sig] > 5 { // the first few per signature carry the detail; the rest are only counted
+		return
+	}
 	if len(detail) > 4000 {
 		detail = detail[:4000] + "…"
 	}
@@ -249,7 +257,7 @@ func (c *Ctx) Finish() {
 	c.emit(map[string]interface{}{
 		"t": "S", "shard": c.Shard, "part": c.Part, "cases_total": c.n, "cases_run": c.ran,
 		"counts": c.counts, "classes": c.classes, "outcomes": strings.Join(hs, ","),
-		"samples": c.samples, "violations": c.viol, "notes": c.notes, "capped": c.capped, "next": c.next,
+		"samples": c.samples, "violations": c.viol, "vsigs": c.vsigs, "notes": c.notes, "capped": c.capped, "next": c.next,
 	})
 	c.out.Flush()
 	if c.outf != os.Stderr {
